@@ -374,8 +374,9 @@ func (t *TupleType) Parameters() []px.Value {
 		params = append(params, c)
 	}
 	// a size that says what an absent size means, one element per type, is left out
-	if !(t.size == nil || top == 0 && *t.size == *IntegerTypePositive || top > 0 && *t.size == (IntegerType{int64(top), int64(top)})) {
-		params = append(params, t.size.SizeParameters()...)
+	sz := t.givenOrActualSize
+	if !(top == 0 && *sz == *IntegerTypePositive || top > 0 && *sz == (IntegerType{int64(top), int64(top)})) {
+		params = append(params, sz.SizeParameters()...)
 	}
 	return params
 }
